@@ -196,6 +196,12 @@ pub enum T {
     AddL(i64, Box<T>),
     /// `((E) == n)`
     EqLit(Box<T>, i64),
+    /// `limit((Z); F)`: a multi-valued, effectful count
+    LimitZ(Box<T>, Box<T>),
+    /// `range((Z); n)`: a multi-valued, effectful lower bound
+    RangeZ(Box<T>, i64),
+    /// `last(F)`: needs the whole stream, in order
+    Last(Box<T>),
 }
 
 pub const ARR: [i64; 6] = [10, 20, 30, 40, 50, 60];
@@ -259,6 +265,9 @@ impl T {
             T::AddR(e, n) => format!("(({}) + {n})", b(e)),
             T::AddL(n, e) => format!("({n} + ({}))", b(e)),
             T::EqLit(e, n) => format!("(({}) == {n})", b(e)),
+            T::LimitZ(z, f) => format!("limit(({}); {})", b(z), b(f)),
+            T::RangeZ(z, n) => format!("range(({}); {n})", b(z)),
+            T::Last(f) => format!("last({})", b(f)),
         }
     }
     /// effects sit in index / bound positions of a path (compared as sets, see c03.rs)
@@ -284,7 +293,11 @@ impl T {
             T::TryQ(a) | T::Label(_, a) | T::First(a) | T::Limit(_, a) | T::Skip(_, a) | T::Nth(_, a)
             | T::IsEmpty(a) | T::Any(a, _) | T::All(a, _) | T::Arr(a) | T::Rec(a) | T::Repeat(a)
             | T::Recurse(a) | T::While(_, a) | T::Until(_, a) | T::SliceTo(_, a) | T::IndexAt(a) | T::PathOf(a) | T::IdxZ(a) | T::Interp(a) | T::ObjVal(a)
-            | T::AddR(a, _) | T::AddL(_, a) | T::EqLit(a, _) => f(a),
+            | T::AddR(a, _) | T::AddL(_, a) | T::EqLit(a, _) | T::RangeZ(a, _) | T::Last(a) => f(a),
+            T::LimitZ(z, a) => {
+                f(z);
+                f(a)
+            }
             T::Foreach(s, _, _, u, e) => {
                 f(s);
                 f(u);
@@ -895,6 +908,63 @@ fn eval_(t: &T, env: &Env) -> Stream {
         T::EqLit(e, n) => {
             let n = *n;
             flat(eval(e, env), move |v| once(Step::Out(if v.cmp(&V::Int(n)) == std::cmp::Ordering::Equal { V::True } else { V::False })))
+        }
+        T::LimitZ(z, f) => {
+            let (env2, f2) = (env.clone(), f.clone());
+            flat(eval(z, env), move |c| match c.plain() {
+                V::Int(n) if *n <= 0 => empty(),
+                V::Int(n) => {
+                    let n = *n;
+                    control(eval(&f2, &env2), move |k, v| (Some(v.clone()), k as i64 >= n))
+                }
+                _ => {
+                    UNMODELLED.with(|u| u.set(true));
+                    once(Step::Err(X::Error(V::Str("limit".into()))))
+                }
+            })
+        }
+        T::RangeZ(z, n) => {
+            let to = *n;
+            flat(eval(z, env), move |v| match v.plain() {
+                V::Int(a) => {
+                    let mut cur = *a;
+                    Box::new(std::iter::from_fn(move || {
+                        (cur < to).then(|| {
+                            let v = cur;
+                            cur += 1;
+                            Step::Out(V::Int(v))
+                        })
+                    })) as Stream
+                }
+                _ => {
+                    UNMODELLED.with(|u| u.set(true));
+                    once(Step::Err(X::Error(V::Str("range".into()))))
+                }
+            })
+        }
+        T::Last(f) => {
+            let mut s = eval(f, env);
+            let mut last: Option<V> = None;
+            let mut done = false;
+            Box::new(std::iter::from_fn(move || {
+                if done {
+                    return None;
+                }
+                loop {
+                    match s.next() {
+                        None => {
+                            done = true;
+                            return last.take().map(Step::Out);
+                        }
+                        Some(Step::Out(v)) => last = Some(v),
+                        Some(Step::Err(x)) => {
+                            done = true;
+                            return Some(Step::Err(x));
+                        }
+                        Some(e) => return Some(e),
+                    }
+                }
+            }))
         }
         T::IdxZ(z) => {
             // the index expression runs in value mode on the value at the current path
